@@ -11,7 +11,8 @@
                           largest buffer + incoming chunk)
      chunks cs            the error-free stream delivering the chunk list cs
    Every statement is for all limits, all chunk lists / item streams, all extractors. *)
-From AV Require Import Lib.Base Gen.Consts Web.Extract Web.ExtractSpec Web.ExtractProofs.
+From Coq Require Import String.
+From AV Require Import Lib.Base Gen.Consts Gen.ExtractTables Web.Extract Web.ExtractSpec Web.ExtractProofs Web.ExtractTie.
 
 (* the extractor succeeds exactly when the whole decoded body fits, and then returns exactly it *)
 Theorem C12_accepts_iff_within_limit : forall (x : extractor) (limit : N) (cs : list bytes) (b : bytes),
@@ -157,6 +158,75 @@ Theorem C12_defaults_instance : forall (cs : list bytes) (b : bytes),
      <-> b = concat cs /\ lenN b <= 2097152) /\
   (fst (run XForm FORM_DEFAULT_LIMIT None (chunks cs)) = Ok b <-> b = concat cs /\ lenN b <= 16384).
 Proof. intros. split; [|split]; apply run_exact. Qed.
+
+
+(* ---------------------------------------------------------------- tie to the source text
+   Gen/ExtractTables.v is regenerated from the Rust sources on every check (tools/gen/extract.py):
+   each limit test as written -- operands, operator, conjuncts, position relative to the append.
+   [rejects t acc chunk limit dflt declared] evaluates such a record. *)
+
+(* every collecting loop tests once per chunk, before the append, unconditionally, and one step of
+   the model's fold is exactly the source's test *)
+Theorem C12_loop_guards_are_the_source_tests :
+  (per_chunk_before_append HMB_LOOP_TEST /\ forall limit buf c r g,
+     hmb_loop limit buf (Data c :: r) g =
+     let g' := g_see (g_pull g) buf c in
+     if rejects HMB_LOOP_TEST (lenN buf) (lenN c) limit 0 0 then (Err EOverflow, g')
+     else hmb_loop limit (buf ++ c) r (g_buf g' (buf ++ c))) /\
+  (per_chunk_before_append JSON_LOOP_TEST /\ forall limit buf c r g,
+     json_loop limit buf (Data c :: r) g =
+     let g' := g_see (g_pull g) buf c in
+     if rejects JSON_LOOP_TEST (lenN buf) (lenN c) limit 0 0 then (Err EOverflow, g')
+     else json_loop limit (buf ++ c) r (g_buf g' (buf ++ c))) /\
+  (per_chunk_before_append FORM_LOOP_TEST /\ forall limit body c r g,
+     ue_loop limit body (Data c :: r) g =
+     let g' := g_see (g_pull g) body c in
+     if rejects FORM_LOOP_TEST (lenN body) (lenN c) limit 0 0
+     then (Err (EOverflowAt (lenN body + lenN c) limit), g')
+     else ue_loop limit (body ++ c) r (g_buf g' (body ++ c))) /\
+  (per_chunk_before_append TBL_LOOP_TEST /\ forall limit buf c r g,
+     tbl_loop limit buf (Data c :: r) g =
+     let g' := g_see (g_pull g) buf c in
+     if rejects TBL_LOOP_TEST (lenN buf) (lenN c) limit 0 0 then (Err EOverflow, g')
+     else tbl_loop limit (buf ++ c) r (g_buf g' (buf ++ c))) /\
+  (per_chunk_before_append FIELD_BYTES_TEST /\ forall limit buf c r g,
+     field_bytes_loop limit false buf (Data c :: r) g =
+     let g' := g_see (g_pull g) buf c in
+     if rejects FIELD_BYTES_TEST (lenN buf) (lenN c) limit 0 0
+     then field_bytes_loop limit true [] r (g_buf g' [])
+     else field_bytes_loop limit false (buf ++ c) r (g_buf g' (buf ++ c))).
+Proof.
+  split; [exact hmb_loop_tie|]. split; [exact json_loop_tie|]. split; [exact form_loop_tie|].
+  split; [exact tbl_loop_tie|exact field_bytes_tie].
+Qed.
+
+(* the declared-length pre-checks are the source's comparisons *)
+Theorem C12_prechecks_are_the_source_tests :
+  (forall dflt l, hmb_err (hmb_new dflt (CLNum l)) =
+                  if rejects HMB_NEW_PRECHECK 0 0 0 dflt l then Some EOverflow else None) /\
+  (forall limit s l, hmb_length s = Some l ->
+     hmb_err (hmb_set_limit limit s) = if rejects HMB_LIMIT_PRECHECK 0 0 limit 0 l then Some EOverflow else None) /\
+  (forall limit d len, json_set_limit limit (JBody d (Some len)) =
+     if rejects JSON_LIMIT_PRECHECK 0 0 limit 0 len then JError (EOverflowKnown len limit) else JBody limit (Some len)) /\
+  (forall limit len items, ue_poll {| ue_limit := limit; ue_length := Some len; ue_err := None |} items =
+     if rejects FORM_POLL_PRECHECK 0 0 limit 0 len then (Err (EOverflowAt len limit), g0) else ue_loop limit [] items g0) /\
+  (forall limit n items, n <> 0 -> to_bytes_limited (SzSized n) limit items =
+     if rejects TBL_SIZE_PRECHECK 0 0 limit 0 n then (Err EOverflow, g0) else tbl_loop limit [] items g0).
+Proof.
+  split; [exact hmb_new_tie|]. split; [exact hmb_limit_tie|]. split; [exact json_limit_tie|].
+  split; [exact form_poll_tie|exact tbl_size_tie].
+Qed.
+
+(* Limits::try_consume_limits is the source's list of guarded subtractions (three checked_sub),
+   and the field readers charge before they append *)
+Theorem C12_multipart_subtractions_are_the_source :
+  (forall l n in_memory,
+     try_consume_limits l n in_memory = interp_subtractions MULTIPART_SUBTRACTIONS l n in_memory) /\
+  MULTIPART_READ_FIELD_CONSUME = (true, true, true) /\
+  MULTIPART_DISCARD_FIELD_CONSUME = (false, true, false).
+Proof.
+  split; [exact try_consume_limits_tie|]. destruct read_field_tie as [H1 [H2 _]]. split; assumption.
+Qed.
 
 (* non-vacuity: concrete runs on both sides of the limit, a lying Content-Length, a form *)
 Example C12_example :
